@@ -20,8 +20,8 @@ CLAIMED = {
             "Proof: the chunked run-length encoder equals the unchunked one for every block size; offsets built from runs equal the run-length index for every non-decreasing column; a validated chunk stream yields a store satisfying every schema clause. The predicate the theorem concludes is evaluated on raw dumps of all files written by create/unordered/merge/coarsen/zoomify/scool/CLI loaders.",
             "Trusted: Lean kernel; model of rlencode/index_pixels/write_pixels tied by unit correspondences (exhaustive small arrays, all block sizes, >10^6-pixel creation in thorough); h5py raw reads."),
     "C01": ("DESIGN.md §5 C01",
-            "Lean 4 theorems (pixels_roundtrip, matrix_roundtrip_symm/_square, arrayLoader_spec, sortByKey_strict) composing the proved write path (C02) and read path (C03) + differential round trips over input forms, dtypes, extra columns, HDF5 filter options and metadata documents",
-            "Proof: the stored table is the concatenation of the chunks for every chunking; the full-matrix query of the created store is the stored matrix (square) / exactly the symmetric completion without duplicates (symmetric-upper); the array loader's stream equals the upper triangle for every chunk size; a frame with distinct keys is stored as its strictly sorted permutation. Real create_cooler/pixels()/matrix()/info are compared with the Lean definitions.",
+            "Lean 4 theorems (pixels_roundtrip, matrix_roundtrip_symm/_square, arrayLoader_spec, sortByKey_strict, checkedWrite_exact/_refuses_iff) composing the proved write path (C02) and read path (C03) + differential round trips over input forms, given x stored dtypes, extra columns, HDF5 filter options, metadata documents, sequences of creations in one process and a > 10^6-pixel creation",
+            "Proof: the stored table is the concatenation of the chunks for every chunking; the full-matrix query of the created store is the stored matrix (square) / exactly the symmetric completion without duplicates (symmetric-upper); the array loader's stream equals the upper triangle for every chunk size; a frame with distinct keys is stored as its strictly sorted permutation; an integer column is stored exactly or the write is refused, and refused exactly when a saturating write would alter a value. Real create_cooler/pixels()/matrix()/info are compared with the Lean definitions.",
             "Trusted: Lean kernel; hand-written model tied by correspondence; HDF5 filters/dtype conversion, pandas sort, simplejson round trip are primitives. Known finding D16 (assembly JSON-decoded) is matched narrowly."),
     "C06": ("DESIGN.md §5 C06",
             "Lean 4 theorems (unordered_eq_aggregate, passes_irrelevant, split/chunk order irrelevance via the groupSum extensionality principle) + differential correspondence over chunkings, orders, merge buffers, max-merge fan-ins; first-pass groups observed through the log and checked by contract",
@@ -64,8 +64,8 @@ CLAIMED = {
             "Proof: for every window, weight vector and raw content each balanced value is the product of exactly the raw value, the row bin's weight and the column bin's weight (reciprocals when divisive; divisive by default exactly for KR/VC/VC_SQRT), the aliasing shortcut equals slicing the column range, a missing column is an error in all forms. The model instantiated at IEEE binary64 is compared bit for bit with Cooler.matrix(balance=...) in dense/sparse/pixel form and with cooler dump -b; a pure re-bracketing of the product is a free choice checked by contract.",
             "Trusted: Lean kernel; Lean Float = IEEE binary64 (checked against numpy on random bit patterns every run); model fed with the raw result of the same query so that range-query bugs are C03's."),
     "C05": ("DESIGN.md §5 C05",
-            "Lean 4 theorems (binAssign_var_correct, binAssign_fixed_correct via C20.getBinsize_truthful, assign_le_of_lex, sanitize_count_once, aggregated_eq_spec, sanitize_reflect_upper, sanitize_order_independent, sanitize_one_based, tabix_correct) + exhaustive single-record and seeded multiset correspondence through the API, the text loaders and the tabix loader",
-            "Proof: for positions inside their chromosome the assigned bin is the bin containing the position (both paths) and lies on that chromosome; the aggregated output holds one unit per retained record at its pixel after orientation, total = number of retained records, independent of record order; one-based input is the zero-based input shifted by one; positions < 0 or > length are rejected. Full rejection at position == length is NOT proved: recorded finding D13 with a machine-checked witness, matched narrowly by Lean's atLength predicate and the variant oracle.",
+            "Lean 4 theorems (binAssign_var_correct, binAssign_fixed_correct via C20.getBinsize_truthful, assign_le_of_lex, sanitize_count_once, aggregated_eq_spec, sanitize_reflect_upper, sanitize_order_independent, sanitize_one_based, tabix_correct, groupFirst_perm_groupCells) + exhaustive single-record and seeded multiset correspondence through the API, the text loaders and the tabix loader",
+            "Proof: for positions inside their chromosome the assigned bin is the bin containing the position (both paths) and lies on that chromosome; the aggregated output holds one unit per retained record at its pixel after orientation, total = number of retained records, independent of record order and of the sort flag of the aggregation (the unsorted grouping stores exactly the same cells, in order of first appearance); one-based input is the zero-based input shifted by one; positions < 0 or > length are rejected. Full rejection at position == length is NOT proved: recorded finding D13 with a machine-checked witness, matched narrowly by Lean's atLength predicate and the variant oracle.",
             "Trusted: Lean kernel; model tied by correspondence; pandas Categorical/searchsorted and pysam fetch are primitives; HDF5Aggregator/PairixAggregator not modelled."),
     "C08": ("DESIGN.md §5 C08",
             "Lean 4 theorems (coarsenBins_spec, cmap_monotone, rebin_correct via C20.getBinsize_truthful, prune_contract, no_group_split, coarsen_eq_spec for ANY contract-satisfying spans, coarsen_total, coarsen_compose, coarsen_merge_commute, coarsen_map_independent) + exhaustive (k, chunksize) differential correspondence with coarsen_cooler",
@@ -80,8 +80,8 @@ CLAIMED = {
             "Proof: for every injective layout the parsed field f is the line's column col f (formal content of fix D12); dump rows are the annotator mapped over the library query (C03 engines, C12 balanced cell); each dump option has its documented effect and no other; loading dumped COO/BG2 records in any order and chunking reproduces the stored table. cloadPairs = pairsSpec for every layout, value field and cutting into reader chunks (cloadPairs_eq_spec, via the groupSum extensionality principle).",
             "Trusted: Lean kernel; model tied by correspondence; character-level CSV parsing/formatting and float formatting are pandas primitives."),
     "C15": ("DESIGN.md §5 C15",
-            "Lean 4 theorems over a flat path->entry HDF5 file model with an invariant WF preserved by every operation (copy_reads_equal, copy_frame, mv_frame, mv_source_gone_partial, list_exact_history, isCooler_total, create_append_frame, create_w_replaces, recreate_replaces) + exhaustive short histories and seeded random histories against real files",
-            "Proof: after a successful cp/ln/ln -s the destination reads what the source read; whatever the outcome only the destination file changes and nothing outside the destination's footprint (and the source for mv) changes; same-file mv removes the source; listing is exact for link-free files after any history; the recognition test is total; append-mode creation keeps all other collections and unrelated attributes, write mode replaces the file, re-creation replaces the collection. D4 (cross-file mv keeps the source) and D5 (external links listed under the target's path) are recorded findings proved as theorems about the model of the current code and matched through variant oracles.",
+            "Lean 4 theorems over a flat path->entry HDF5 file model with an invariant WF preserved by every operation (copy_reads_equal, copy_frame, mv_frame, mv_source_gone_partial, list_exact_history, list_exact_soft_history, isCooler_total, create_append_frame, create_w_replaces, recreate_replaces) + exhaustive short histories and seeded random histories against real files",
+            "Proof: after a successful cp/ln/ln -s the destination reads what the source read; whatever the outcome only the destination file changes and nothing outside the destination's footprint (and the source for mv) changes; same-file mv removes the source; listing is exact for link-free files after any history, and after any history with at most 7 same-file soft links (the link-nesting bound is an invariant of histories: C15Depth); the recognition test is total; append-mode creation keeps all other collections and unrelated attributes, write mode replaces the file, re-creation replaces the collection. D4 (cross-file mv keeps the source) and D5 (external links listed under the target's path) are recorded findings proved as theorems about the model of the current code and matched through variant oracles.",
             "Trusted: Lean kernel; model tied by correspondence; HDF5 link resolution/Group.copy are primitives of the file model; some h5py corners end a history without a verdict (counted). Self-nesting mv/ln (repaired D26) refused with no effect."),
     "C04": ("DESIGN.md §5 C04",
             "Lean 4 theorems (extent_var_correct, extent_fixed_correct, extent_fixed_sound via C20.getBinsize_truthful, extent_empty_*, shortest_cover, gsFetch_correct, parseRegion_bounds, extent_table_correct, pixelsFetch_correct) + exhaustive all-regions differential correspondence on every small segmentation",
